@@ -191,8 +191,11 @@ def doubleQuotient (m1 : Nat) (e1 : Int) (m2 : Nat) (e2 : Int) : Nat × Int :=
 def quantizeMultiplier (q : Nat) (k : Int) : Int × Int :=
   let shift : Int := 53 - k                      -- frexp exponent: d = (q / 2^53) · 2^(53 - k)
   let qFixed : Nat := (q + 2 ^ 21) / 2 ^ 22       -- round(q/2^53 · 2^31), ties away (std::round)
-  let (qFixed, shift) := if qFixed = 2 ^ 31 then (qFixed / 2, shift + 1) else (qFixed, shift)
-  if shift < -31 then (0, 0) else (qFixed, shift)
+  -- `if (q_fixed == (1LL << 31)) { q_fixed /= 2; ++*shift; }` (two plain `if`s: a destructuring `let` of an `if` makes
+  -- the definition's unfolding lemma intractable for the elaborator)
+  let qFixed' : Nat := if qFixed = 2 ^ 31 then qFixed / 2 else qFixed
+  let shift' : Int := if qFixed = 2 ^ 31 then shift + 1 else shift
+  if shift' < -31 then (0, 0) else ((qFixed' : Int), shift')
 
 /-- reference `Requantize` of one constant with the multiplier derived from the tensor scales -/
 def requantizeRefScales (qmin qmax inputZp outputZp : Int) (m1 : Nat) (e1 : Int) (m2 : Nat) (e2 : Int) (v : Int) : Int :=
